@@ -291,7 +291,7 @@ func checkWalk(c WalkCase) (v ev.Verdict) {
 		}
 		if comparable {
 			v.Class("split-compared")
-			if canonState(st) != canonState(final) {
+			if scrubbedState(st) != scrubbedState(final) {
 				v.Failf("delivering the messages in batches %v ends at %s, all at once at %s", bounds, canonState(st), canonState(final))
 				return
 			}
@@ -350,6 +350,14 @@ func sortedNodeNames(s *core.Spec) []string {
 	return jsongen.SortedKeys(m)
 }
 
+// scrubbedState is canonState modulo the wording of error messages.
+func scrubbedState(st *core.State) string {
+	if st == nil {
+		return "nil"
+	}
+	return st.NodeName + " " + jsongen.Canon(sm.Scrub(map[string]interface{}(st.Bs)))
+}
+
 type walkObs struct {
 	strides []string
 	rem     string
@@ -370,7 +378,7 @@ func observeWalk(w *core.Walked, err error) walkObs {
 		if s.Events != nil {
 			em = append(em, s.Events.Emitted...)
 		}
-		o.strides = append(o.strides, fmt.Sprintf("%s -> %s consumed=%s emitted=%s", canonState(s.From), canonState(s.To), jsongen.Canon(s.Consumed), jsongen.Canon(em)))
+		o.strides = append(o.strides, fmt.Sprintf("%s -> %s consumed=%s emitted=%s", scrubbedState(s.From), scrubbedState(s.To), jsongen.Canon(s.Consumed), jsongen.Canon(em)))
 	}
 	o.rem = jsongen.Canon(w.Remaining)
 	o.stopped = w.StoppedBecause.String()
